@@ -160,11 +160,11 @@ def check(spec, tag, overwrite, scratch):
         return Failure(case, f"insertion into torch.save({_brief(spec)}) overwrite={overwrite}: {msg}")
 
     before = set(os.listdir(scratch.path))
-    try:
-        import contextlib
-        import io
-        import warnings
+    import contextlib
+    import io
+    import warnings
 
+    try:
         with warnings.catch_warnings(), contextlib.redirect_stdout(io.StringIO()):
             warnings.simplefilter("ignore")
             PyTorchModelWrapper(src).inject_payload(payload, dst, injection="insertion", overwrite=overwrite)
@@ -210,6 +210,32 @@ def check(spec, tag, overwrite, scratch):
         return fail("the loaded object differs from the original")
     if not sharing_preserved(pairs):
         return fail("tensors that shared a storage no longer do")
+    if not overwrite:
+        # history: the untouched input is injected again, by a fresh wrapper, in this process
+        tag2 = tag + "#2"
+        payload2 = f"import verif_sink\nverif_sink.sink({tag2!r})"
+        dst2 = os.path.join(scratch.path, "out2.pt")
+        try:
+            with warnings.catch_warnings(), contextlib.redirect_stdout(io.StringIO()):
+                warnings.simplefilter("ignore")
+                PyTorchModelWrapper(src).inject_payload(payload2, dst2, injection="insertion")
+        except Exception as e:  # noqa: BLE001
+            return fail(f"second inject_payload on the same input raised {type(e).__name__}: {e}")
+        want2 = Pickled.load(members0[pkl_name])
+        want2.insert_python_exec(payload2)
+        with zipfile.ZipFile(dst2) as z:
+            got2 = z.read(pkl_name)
+        if got2 != want2.dumps():
+            return fail("a second injection from the same untouched input does not produce the "
+                        "original data.pkl with (only) the second payload inserted")
+        if sha(src) != sha0:
+            return fail("the input file was modified by the second injection")
+        verif_sink.reset()
+        torch.load(dst2, weights_only=False)
+        log2 = list(verif_sink.LOG)
+        verif_sink.reset()
+        if log2 != [((tag2,), {})]:
+            return fail(f"second output ran {log2!r}, expected exactly the second payload once")
     return None
 
 
